@@ -267,7 +267,9 @@ func (w *wal) flush(batch WALBatch) error {
 
 func (w WALBatch) replay(fs *fileStore) error {
 	for _, row := range w {
-		fs._nextLSN = row.LSN
+		if row.LSN >= fs._nextLSN {
+			fs._nextLSN = row.LSN + 1
+		}
 		node, err := fs.fetch(row.pageID)
 		if err != nil {
 			return err
@@ -306,6 +308,5 @@ func (w WALBatch) replay(fs *fileStore) error {
 		}
 	}
 
-	fs._nextLSN++
 	return fs.flushPages()
 }
